@@ -807,6 +807,39 @@ impl<'a, W: Write> YamlSerializer<'a, W> {
         Ok(())
     }
 
+    /// If an anchor is pending for an enum variant with a payload (written as the one-entry
+    /// mapping `Variant: payload`), emit it before the variant label so that it names the whole
+    /// variant and not the first scalar of the payload.
+    ///
+    /// - value of a mapping key: `key: &a1`, the label then goes to the next line as usual;
+    /// - element after a list dash: `- &a1`, the label on its own line one level under the dash;
+    /// - line of its own (root): `&a1`, the label on the next line at the same depth.
+    fn write_anchor_before_variant(&mut self) -> Result<()> {
+        if self.in_flow > 0 {
+            return Ok(());
+        }
+        if let Some(id) = self.pending_anchor_id.take() {
+            if self.pending_space_after_colon {
+                self.out.write_str(" &")?;
+                self.write_anchor_name(id)?;
+            } else if self.at_line_start {
+                self.write_indent(self.depth)?;
+                self.out.write_char('&')?;
+                self.write_anchor_name(id)?;
+                self.newline()?;
+            } else {
+                self.out.write_char('&')?;
+                self.write_anchor_name(id)?;
+                self.newline()?;
+                if let Some(d) = self.after_dash_depth {
+                    self.write_indent(d + 1)?;
+                    self.at_line_start = false;
+                }
+            }
+        }
+        Ok(())
+    }
+
     /// Emit an alias `*name`. Adds a newline in block style.
     /// Used when a previously defined anchor is referenced again.
     #[inline]
@@ -1346,6 +1379,7 @@ impl<'a, 'b, W: Write> Serializer for &'a mut YamlSerializer<'b, W> {
         // Emit the variant mapping on the next line indented one level. Also, do not insert
         // a space after the colon when the value may itself be a mapping; instead, defer
         // space insertion to the value serializer via pending_space_after_colon.
+        self.write_anchor_before_variant()?;
         if self.pending_space_after_colon {
             // consume the pending space request and start a new line
             self.pending_space_after_colon = false;
@@ -1547,6 +1581,7 @@ impl<'a, 'b, W: Write> Serializer for &'a mut YamlSerializer<'b, W> {
         // Same three positions as for struct variants: value of a mapping key (the label goes
         // to the next line, one level under the key), element after a list dash (the label is
         // inline, the elements two levels under the dash), or a line of its own.
+        self.write_anchor_before_variant()?;
         let depth_next = if self.pending_space_after_colon {
             self.pending_space_after_colon = false;
             self.newline()?;
@@ -1693,6 +1728,7 @@ impl<'a, 'b, W: Write> Serializer for &'a mut YamlSerializer<'b, W> {
         // If we are the value of a mapping key, YAML forbids keeping a nested mapping
         // on the same line (e.g., "key: Variant:"). Move the variant mapping to the next line
         // indented under the parent mapping's base depth.
+        self.write_anchor_before_variant()?;
         let _was_inline_value = !self.at_line_start;
         if self.pending_space_after_colon {
             // Value position after a map key: start the variant mapping on the next line.
